@@ -1,5 +1,514 @@
-"""E2 jobs (typed Cython tree -> SMT).  Filled in below; jobs_for(prop, tier) returns job specs."""
+"""E2 jobs: the Cython kernels (libdist, libinfo, libmsm) interpreted from Cython's typed tree.
+
+jobs_for(prop, tier) returns the job specs that belong to C13 / C18 / C19 / C12."""
+import atexit
+import importlib.util
+import itertools
+import math
+import os
+import shutil
+import subprocess
+import sys
+import sysconfig
+import tempfile
+
+import numpy as np
+import z3
+
+import cy2smt
+from cy2smt import Interp, AbstractBuf, KernelAssertion
+from symnp import core, funcs, loader
+from symnp.core import SVal, SInt, SFloat, ite, sand, sor, snot
+from symnp.arr import SArr, _raw
+from harness.common import PathOut, ev
+from harness.cluster import conj, cells, run_oracle
+
+REPO = loader.REPO
+PYX = {'libdist': 'enspara/geometry/libdist.pyx', 'libinfo': 'enspara/info_theory/libinfo.pyx',
+       'libmsm': 'enspara/msm/libmsm.pyx'}
+
+# ---------------------------------------------------------------------------------------------
+# real extension modules of the CURRENT tree, built in scratch (for replays)
+# ---------------------------------------------------------------------------------------------
+
+_BUILD = {}
+
+
+def build_ext(name, boundscheck=False):
+    """cythonize + compile /repo's <name>.pyx into a scratch directory and import it.  Nothing is
+    written to /repo or /verif; the directory is removed at exit.  boundscheck=True builds the SAME source with
+    Cython's buffer bounds checking switched on (the decorators are flipped in the scratch copy): an
+    out-of-bounds access then raises IndexError deterministically -- the replay device for memory-safety
+    counterexamples, in the role a sanitizer build plays for C."""
+    key = (name, boundscheck)
+    if key in _BUILD:
+        return _BUILD[key]
+    d = tempfile.mkdtemp(prefix='enspara_ext_', dir='/dev/shm' if os.path.isdir('/dev/shm') else None)
+    atexit.register(shutil.rmtree, d, True)
+    src = os.path.join(REPO, PYX[name])
+    pyx = os.path.join(d, name + '.pyx')
+    shutil.copy(src, pyx)
+    if boundscheck:
+        txt = open(pyx).read().replace('@cython.boundscheck(False)', '@cython.boundscheck(True)')
+        open(pyx, 'w').write(txt)
+    cy = [sys.executable, '-m', 'cython', '-3', pyx]
+    r = subprocess.run(cy, capture_output=True, text=True, cwd=d)
+    if r.returncode != 0:
+        raise RuntimeError('cython failed: ' + r.stderr[-800:])
+    so = os.path.join(d, name + sysconfig.get_config_var('EXT_SUFFIX'))
+    cmd = ['gcc', '-shared', '-fPIC', '-O2', '-fopenmp', '-w', '-I' + sysconfig.get_paths()['include'],
+           '-I' + np.get_include(), os.path.join(d, name + '.c'), '-o', so]
+    r = subprocess.run(cmd, capture_output=True, text=True)
+    if r.returncode != 0:
+        raise RuntimeError('gcc failed: ' + r.stderr[-800:])
+    dotted = {'libdist': 'enspara.geometry.libdist', 'libinfo': 'enspara.info_theory.libinfo',
+              'libmsm': 'enspara.msm.libmsm'}[name]
+    spec = importlib.util.spec_from_file_location(dotted, so)
+    mod = importlib.util.module_from_spec(spec)
+    loader.prepare()
+    import enspara.exception       # noqa: F401  (the kernels import it)
+    spec.loader.exec_module(mod)
+    _BUILD[key] = mod
+    return mod
+
+
+def preload():
+    loader.prepare()
+    for n in PYX:
+        cy2smt.typed_tree(os.path.join(REPO, PYX[n]))
+
+
+# ---------------------------------------------------------------------------------------------
+# module wrapper: resolves names between the functions of one .pyx
+# ---------------------------------------------------------------------------------------------
+
+class AbsNP:
+    """numpy namespace for abstract mode: allocation yields abstract buffers"""
+
+    def __getattr__(self, n):
+        return getattr(np, n)
+
+    def zeros(self, shape, dtype=float):
+        if not isinstance(shape, tuple):
+            shape = (shape,)
+        return AbstractBuf('alloc', shape, dtype)
+
+    empty = zeros
+
+
+class KModule:
+    def __init__(self, name, abstract=False):
+        self.name = name
+        self.tree = cy2smt.typed_tree(os.path.join(REPO, PYX[name]))
+        self.fns = cy2smt.functions(self.tree)
+        import enspara.exception as exc
+        import warnings
+        self.it = Interp({'np': AbsNP() if abstract else funcs.NP, 'exception': exc, 'warnings': warnings}, abstract=abstract)
+        for fname in self.fns:
+            if '[' in fname:
+                continue
+            self.it.g[fname] = self._callable(fname)
+
+    def specialisations(self, base):
+        return {k: v for k, v in self.fns.items() if k.startswith(base + '[')}
+
+    def _callable(self, fname):
+        specs = self.specialisations(fname)
+
+        def f(*args):
+            if not specs:
+                return self.it.call(self.fns[fname], list(args))
+            # fused dispatch: Cython selects the specialisation from the buffer dtypes
+            for sname, node in specs.items():
+                want = [a.type for a in node.args]
+                ok = True
+                for a, t in zip(args, want):
+                    if getattr(t, 'is_buffer', False):
+                        dt = getattr(a, 'dtype', None)
+                        nd = getattr(a, 'ndim', None)
+                        if dt is None or np.dtype(dt) != cy2smt.np_dtype_of(t.dtype) or nd != t.ndim:
+                            ok = False
+                            break
+                if ok:
+                    return self.it.call(node, list(args))
+            raise TypeError('No matching signature found')
+        f.__name__ = fname
+        return f
+
+    def __getattr__(self, n):
+        if n in self.it.g:
+            return self.it.g[n]
+        raise AttributeError(n)
+
+
+# ---------------------------------------------------------------------------------------------
+# obligations from the interpreter -> PathOut obligations
+# ---------------------------------------------------------------------------------------------
+
+def ob_list(it, kinds=None, prefix=''):
+    out = []
+    groups = {}
+    for ob in it.obligations:
+        if kinds and ob.kind not in kinds:
+            continue
+        groups.setdefault((ob.kind, ob.label, ob.where), []).append(ob.cond)
+    for (kind, label, where), conds in groups.items():
+        out.append(('%s%s: %s (%s)' % (prefix, kind, label, where), conj(conds)))
+    return out
+
+
+INT_DTYPES = ['int8', 'int16', 'int32', 'int64']
+UINT_DTYPES = ['uint8', 'uint16', 'uint32', 'uint64']
+FLOAT_DTYPES = ['float32', 'float64']
+
+
+def sym_cells(dtype, shape, base):
+    dt = np.dtype(dtype)
+    o = np.empty(shape, dtype=object)
+    for ix in np.ndindex(shape):
+        if dt.kind in 'iu':
+            info = np.iinfo(dt)
+            o[ix] = core.fresh_int(base, int(info.min), int(info.max))
+        else:
+            o[ix] = core.fresh_real(base)
+    r = o.view(SArr)
+    r.ldtype = dt
+    return r
+
+
+def conc_array(model, arr):
+    dt = arr.ldtype
+    r = _raw(arr)
+    out = np.empty(r.shape, dtype=dt)
+    for ix in np.ndindex(r.shape):
+        v = ev(model, r[ix])
+        out[ix] = int(v) if dt.kind in 'iu' else float(v)
+    return out
+
+
+def dist_job(metric, dtype, rows, feats, with_out=False):
+    """functional exactness + C integer representability of one distance kernel specialisation, through
+    the public wrapper"""
+    def path(ctx):
+        K = KModule('libdist')
+        it = K.it
+        X = sym_cells(dtype, (rows, feats), 'x')
+        y = sym_cells(dtype, (feats,), 'y')
+        out_arg = funcs.np_full(rows, 7.0, dtype=np.float64) if with_out else None
+        X0, y0 = X.copy(), y.copy()
+        exc = None
+        try:
+            res = getattr(K, metric)(X, y, out_arg)
+        except (Exception, KernelAssertion) as e:
+            exc = e
+
+        def exact(Xc, yc):
+            want = []
+            for i in range(rows):
+                d = [Xc[i][j] - yc[j] for j in range(feats)]
+                if metric == 'euclidean':
+                    want.append(sum(x * x for x in d))
+                elif metric == 'manhattan':
+                    want.append(sum((ite(x < 0, -x, x) if isinstance(x, SVal) else abs(x)) for x in d))
+                else:
+                    want.append(sum((ite(Xc[i][j] != yc[j], 1, 0) if isinstance(Xc[i][j], SVal) or isinstance(yc[j], SVal)
+                                     else int(Xc[i][j] != yc[j])) for j in range(feats)))
+            return want
+
+        def witness(model):
+            Xc, yc = conc_array(model, X), conc_array(model, y)
+            out = {'inputs': {'metric': metric, 'dtype': dtype, 'X': Xc.tolist(), 'y': yc.tolist(), 'out_given': with_out}}
+            try:
+                mod = build_ext('libdist')
+            except Exception as e:
+                return dict(out, out=None, violated=None, exception='build failed: %r' % e)
+            bad = []
+            results = []
+            layouts = {'C': np.ascontiguousarray(Xc), 'F': np.asfortranarray(Xc),
+                       'strided': np.ascontiguousarray(np.repeat(Xc, 2, axis=1))[:, ::2]}
+            for lname, Xl in layouts.items():
+                for nt in ('1', '4', '16'):
+                    os.environ['OMP_NUM_THREADS'] = nt
+                    o = np.full(rows, 7.0) if with_out else None
+                    with core.concrete_mode():
+                        try:
+                            r = getattr(mod, metric)(Xl, yc, o) if with_out else getattr(mod, metric)(Xl, yc)
+                        except Exception as e:
+                            out.update(exception=repr(e), out=None, violated=['raises ' + type(e).__name__],
+                                       signature='%s:%s:exception:%s' % (metric, dtype, type(e).__name__))
+                            return out
+                    if with_out and r is not o:
+                        bad.append('result-is-not-the-supplied-out-buffer')
+                    if r.dtype != np.float64 or r.ndim != 1:
+                        bad.append('result-not-1d-float64')
+                    results.append(r.tolist())
+            os.environ['OMP_NUM_THREADS'] = '1'
+            if any(x != results[0] for x in results):
+                bad.append('result-depends-on-layout-or-thread-count')
+            # exact reference in rational / integer arithmetic
+            import fractions
+            Xe = [[int(v) if np.dtype(dtype).kind in 'iu' else fractions.Fraction(float(v)) for v in row] for row in Xc.tolist()]
+            ye = [int(v) if np.dtype(dtype).kind in 'iu' else fractions.Fraction(float(v)) for v in yc.tolist()]
+            want = exact(Xe, ye)
+            for i in range(rows):
+                w = float(want[i])
+                if metric == 'euclidean':
+                    w = math.sqrt(w)
+                elif metric == 'hamming':
+                    w = w / feats
+                g = results[0][i]
+                if not (abs(g - w) <= 1e-9 * max(1.0, abs(w))):
+                    bad.append('value-differs-from-exact-%s' % metric)
+                    break
+            out['out'] = results[0]
+            out['violated'] = sorted(set(bad))
+            if bad == ['value-differs-from-exact-%s' % metric]:
+                out['signature'] = '%s:%s:wrong-value(integer overflow in the C arithmetic)' % (metric, dtype)
+            out['skip_compare'] = True
+            return out
+        if exc is not None:
+            return PathOut([('no-exception-on-valid-input', False)], {}, witness, exc=type(exc).__name__,
+                           desc='raises %s: %s' % (type(exc).__name__, str(exc)[:120]))
+        obs = ob_list(it, ('overflow', 'bounds'))
+        Xl = [[_raw(X0)[i, j] for j in range(feats)] for i in range(rows)]
+        yl = [_raw(y0)[j] for j in range(feats)]
+        want = exact(Xl, yl)
+        rc = cells(res)
+        shape_ok = isinstance(res, SArr) and res.ndim == 1 and res.shape[0] == rows and res.ldtype == np.float64
+        obs.append(('result-is-1d-float64', shape_ok))
+        if with_out:
+            obs.append(('result-is-the-supplied-out-buffer', res is out_arg))
+        if shape_ok:
+            if metric == 'euclidean':
+                obs.append(('out[i] >= 0 and out[i]^2 == sum (x-y)^2', conj([(rc[i] >= 0) & (rc[i] * rc[i] == want[i]) for i in range(rows)])))
+            elif metric == 'manhattan':
+                obs.append(('out[i] == sum |x-y|', conj([rc[i] == want[i] for i in range(rows)])))
+            else:
+                obs.append(('out[i] * n_features == #{j: x_j != y_j}', conj([rc[i] * feats == want[i] for i in range(rows)])))
+        obs.append(('inputs-unmodified', conj([a == b for a, b in zip(X.cells() + y.cells(), X0.cells() + y0.cells())])))
+        return PathOut(obs, {}, witness, desc='%s[%s] %dx%d' % (metric, dtype, rows, feats))
+    return path
+
+
+def dist_safety_job(metric, xr, yr, outr):
+    """memory safety for UNBOUNDED extents + prange independence, through the public wrapper.
+    xr, yr = ranks of X and y; outr = rank of out, or None"""
+    dtype = 'uint8' if metric == 'hamming' else 'float64'
+
+    def path(ctx):
+        K = KModule('libdist', abstract=True)
+        it = K.it
+        X = AbstractBuf('X', [core.fresh_int('dX', 0, None) for _ in range(xr)], dtype)
+        y = AbstractBuf('y', [core.fresh_int('dy', 0, None) for _ in range(yr)], dtype)
+        out = None if outr is None else AbstractBuf('out', [core.fresh_int('do', 0, None) for _ in range(outr)], 'float64')
+        exc = None
+        try:
+            getattr(K, metric)(X, y, out)
+        except (Exception, KernelAssertion) as e:
+            exc = e
+        valid_ranks = (xr == 2 and yr == 1 and outr in (None, 1))
+        if exc is not None:
+            name = type(exc).__name__
+            ok = name in ('DataInvalid', 'ValueError', 'TypeError', 'KernelAssertion', 'IndexError')
+            # a rejection is the required behaviour for wrong rank / width / out size; for valid ranks it must be
+            # caused by a genuine mismatch of sizes (the path condition then contains one)
+            return PathOut([('malformed-input-is-rejected-with-an-error(not executed)', ok)], {}, None, exc=name,
+                           desc='rejected: %s' % name)
+        obs = ob_list(it, ('bounds', 'independence'))
+        obs.append(('wrong-rank-never-reaches-the-kernel', valid_ranks))
+
+        def witness(model):
+            sx = [int(ev(model, d)) for d in X.shape]
+            sy = [int(ev(model, d)) for d in y.shape]
+            so = None if out is None else [int(ev(model, d)) for d in out.shape]
+            o = {'inputs': {'metric': metric, 'X.shape': sx, 'y.shape': sy, 'out.shape': so, 'dtype': dtype}}
+            if max(sx + sy + (so or [0])) > 64:
+                return dict(o, out=None, violated=None)
+            try:
+                mod = build_ext('libdist', boundscheck=True)
+            except Exception as e:
+                return dict(o, out=None, violated=None, exception='build failed: %r' % e)
+            with core.concrete_mode():
+                try:
+                    getattr(mod, metric)(np.zeros(sx, dtype=dtype), np.zeros(sy, dtype=dtype),
+                                         None if so is None else np.zeros(so, dtype='float64'))
+                    o['violated'] = []
+                except IndexError as e:
+                    o['violated'] = ['out-of-bounds-buffer-access(bounds-checked build raises IndexError)']
+                    o['exception'] = repr(e)
+                    o['signature'] = '%s:out-of-bounds-access' % metric
+                except Exception as e:
+                    o['violated'] = []
+                    o['exception'] = repr(e)
+            o['out'] = None
+            o['skip_compare'] = True
+            return o
+        return PathOut(obs, {}, witness, desc='%s ranks X=%d y=%d out=%s: %d accesses' % (metric, xr, yr, outr, it.stats['accesses']))
+    return path
+
+
+# ---- libinfo -----------------------------------------------------------------------------------
+
+def bincount_job(dtype, T, fa, fb, na, nb, same=False):
+    def path(ctx):
+        K = KModule('libinfo')
+        it = K.it
+        info = np.iinfo(np.dtype(dtype))
+        a = sym_cells(dtype, (T, fa), 'a')
+        b = a if same else sym_cells(dtype, (T, fb), 'b')
+        for c in a.cells():
+            ctx.add(core.to_z3_bool((c >= 0) & (c < na)))
+        if not same:
+            for c in b.cells():
+                ctx.add(core.to_z3_bool((c >= 0) & (c < nb)))
+        a0, b0 = a.copy(), b.copy()
+        exc = None
+        try:
+            jc = K.matrix_bincount2d(a, b, na, nb if not same else na)
+        except (Exception, KernelAssertion) as e:
+            exc = e
+        nbb = na if same else nb
+        fbb = fa if same else fb
+
+        def witness(model):
+            ac, bc = conc_array(model, a), conc_array(model, b)
+            out = {'inputs': {'dtype': dtype, 'a': ac.tolist(), 'b': bc.tolist(), 'n_a': na, 'n_b': nbb}}
+            try:
+                mod = build_ext('libinfo')
+            except Exception as e:
+                return dict(out, out=None, violated=None, exception='build failed: %r' % e)
+            res = []
+            for layout in ('C', 'F'):
+                for nt in ('1', '8'):
+                    os.environ['OMP_NUM_THREADS'] = nt
+                    al = np.asfortranarray(ac) if layout == 'F' else ac
+                    bl = np.asfortranarray(bc) if layout == 'F' else bc
+                    with core.concrete_mode():
+                        try:
+                            r = mod.matrix_bincount2d(al, bl, na, nbb)
+                        except Exception as e:
+                            out.update(exception=repr(e), out=None, violated=['raises ' + type(e).__name__],
+                                       signature='matrix_bincount2d:exception:' + type(e).__name__)
+                            return out
+                    res.append(r.tolist())
+            os.environ['OMP_NUM_THREADS'] = '1'
+            bad = []
+            if any(x != res[0] for x in res):
+                bad.append('counts-depend-on-layout-or-threads')
+            want = np.zeros((fa, fbb, na, nbb), dtype=np.int64)
+            for t in range(T):
+                for x in range(fa):
+                    for yv in range(fbb):
+                        want[x, yv, int(ac[t, x]), int(bc[t, yv])] += 1
+            if np.array(res[0]).tolist() != want.tolist():
+                bad.append('joint-counts-not-exact')
+            out['out'] = res[0]
+            out['violated'] = bad
+            out['skip_compare'] = True
+            return out
+        if exc is not None:
+            return PathOut([('no-exception-on-valid-input', False)], {}, witness, exc=type(exc).__name__,
+                           desc='raises %s: %s' % (type(exc).__name__, str(exc)[:120]))
+        obs = ob_list(it, ('overflow', 'bounds'))
+        ok = isinstance(jc, SArr) and jc.shape == (fa, fbb, na, nbb)
+        obs.append(('shape-(features_a,features_b,n_a,n_b)', ok))
+        if ok:
+            rj = _raw(jc)
+            conds = []
+            for x in range(fa):
+                for yv in range(fbb):
+                    for i in range(na):
+                        for j in range(nbb):
+                            cnt = 0
+                            for t in range(T):
+                                cnt = cnt + ite(sand(_raw(a0)[t, x] == i, _raw(b0)[t, yv] == j), 1, 0)
+                            conds.append(rj[x, yv, i, j] == cnt)
+            obs.append(('jc[x,y,i,j] == #{t: a[t,x]=i and b[t,y]=j}', conj(conds)))
+        obs.append(('inputs-unmodified', conj([p == q for p, q in zip(a.cells() + b.cells(), a0.cells() + b0.cells())])))
+        return PathOut(obs, {}, witness, desc='matrix_bincount2d[%s] T=%d %dx%d states %dx%d' % (dtype, T, fa, fbb, na, nbb))
+    return path
+
+
+def bincount_safety_job(dtype, mismatched_len=False):
+    """memory safety of matrix_bincount2d for unbounded extents under the function's own assertions"""
+    def path(ctx):
+        K = KModule('libinfo', abstract=True)
+        it = K.it
+        T = core.fresh_int('T', 0, None)
+        T2 = core.fresh_int('T2', 0, None) if mismatched_len else T
+        fa, fb = core.fresh_int('fa', 0, None), core.fresh_int('fb', 0, None)
+        a = AbstractBuf('a', [T, fa], dtype)
+        b = AbstractBuf('b', [T2, fb], dtype)
+        na, nb = core.fresh_int('na', 0, 2 ** 31 - 1), core.fresh_int('nb', 0, 2 ** 31 - 1)
+        exc = None
+        try:
+            K.matrix_bincount2d(a, b, na, nb)
+        except (Exception, KernelAssertion) as e:
+            exc = e
+        if exc is not None:
+            return PathOut([('rejected-with-an-error', type(exc).__name__ in ('KernelAssertion', 'AssertionError', 'ValueError'))],
+                           {}, None, exc=type(exc).__name__, desc='rejected: %s' % type(exc).__name__)
+        obs = ob_list(it, ('bounds', 'independence'))
+
+        def witness(model):
+            # a concrete input in the region the refuted obligation points to: a negative state id
+            out = {'inputs': {'dtype': dtype, 'a': [[0, -1]], 'b': [[0, -1]], 'n_a': 1, 'n_b': 1}}
+            if np.dtype(dtype).kind != 'i':
+                return dict(out, out=None, violated=[], skip_compare=True)
+            try:
+                mod = build_ext('libinfo')
+            except Exception as e:
+                return dict(out, out=None, violated=None, exception='build failed: %r' % e)
+            A = np.array([[0, -1]], dtype=dtype)
+            with core.concrete_mode():
+                try:
+                    r = mod.matrix_bincount2d(A, A, 1, 1)
+                    out['out'] = r.tolist()
+                    out['violated'] = ['negative-state-id-accepted(counted-in-another-cell-or-out-of-bounds)']
+                except Exception as e:
+                    out['out'] = None
+                    out['exception'] = repr(e)
+                    out['violated'] = []
+            out['signature'] = 'matrix_bincount2d:negative-state-id-not-rejected'
+            out['skip_compare'] = True
+            return out
+        obs.append(('arrays-of-different-length-never-reach-the-loop', (T == T2) if mismatched_len else True))
+        return PathOut(obs, {}, witness, desc='matrix_bincount2d[%s] abstract: %d accesses' % (dtype, it.stats['accesses']))
+    return path
 
 
 def jobs_for(prop, tier):
-    return []
+    J = []
+    q = tier == 'quick'
+
+    def add(func, name, **kw):
+        J.append(dict(module='harness.kernels', func=func, name=name, kwargs=kw, sig_prefix='kernel',
+                      deadline_s=280 if q else 1700, timeout_ms=30000 if q else 120000))
+    if prop == 'C13':
+        for metric, dts in (('euclidean', INT_DTYPES + FLOAT_DTYPES), ('manhattan', INT_DTYPES + FLOAT_DTYPES),
+                            ('hamming', INT_DTYPES + UINT_DTYPES)):
+            for dt in dts:
+                add('dist_job', '%s[%s,2x2]' % (metric, dt), metric=metric, dtype=dt, rows=2, feats=2)
+                if not q:
+                    add('dist_job', '%s[%s,2x3]' % (metric, dt), metric=metric, dtype=dt, rows=2, feats=3)
+            add('dist_job', '%s[%s,2x2,out]' % (metric, dts[0]), metric=metric, dtype=dts[0], rows=2, feats=2, with_out=True)
+            add('dist_job', '%s[%s,1x1,out]' % (metric, dts[-1]), metric=metric, dtype=dts[-1], rows=1, feats=1, with_out=True)
+    if prop in ('C13', 'C19'):
+        for metric in ('euclidean', 'manhattan', 'hamming'):
+            for xr, yr, outr in ((2, 1, None), (2, 1, 1), (1, 1, None), (3, 1, None), (2, 2, None), (2, 1, 2)):
+                if prop == 'C19' and not (xr == 2 and yr == 1):
+                    continue
+                add('dist_safety_job', '%s-safety[X%dd,y%dd,out=%s]' % (metric, xr, yr, outr), metric=metric, xr=xr, yr=yr, outr=outr)
+    if prop == 'C18':
+        for dt in (INT_DTYPES + UINT_DTYPES):
+            add('bincount_job', 'bincount[%s,T=2,1x2,2x2]' % dt, dtype=dt, T=2, fa=1, fb=2, na=2, nb=2)
+        add('bincount_job', 'bincount[int32,T=3,2x1,2x3]', dtype='int32', T=3, fa=2, fb=1, na=2, nb=3)
+        add('bincount_job', 'bincount[int64,T=2,self,2 feat,2 states]', dtype='int64', T=2, fa=2, fb=2, na=2, nb=2, same=True)
+        if not q:
+            add('bincount_job', 'bincount[int16,T=4,2x2,3x2]', dtype='int16', T=4, fa=2, fb=2, na=3, nb=2)
+    if prop in ('C18', 'C19'):
+        for dt in ('int32', 'uint8', 'int64'):
+            add('bincount_safety_job', 'bincount-safety[%s]' % dt, dtype=dt)
+        if prop == 'C18':
+            add('bincount_safety_job', 'bincount-safety[int32,mismatched-length]', dtype='int32', mismatched_len=True)
+    return J
